@@ -3,6 +3,11 @@
 import json
 
 CHECKS = {
+ "C13": dict(level="model_checking", engine="E2",
+   technique="deviation-bounded exhaustive schedule exploration (iterative context bounding) of all tasks of two real Litep2p nodes with the real request-response protocol on SimNet, outer enumeration of requester programs x responder behaviours x faults x payload sizes; per-request ledger oracle",
+   text="44 scenario programs (1-3 requests to one peer, connected or dial-on-demand, cancel at each position, link cut, dial failure, no-dial option, try_send, payload sizes 0/1/max/max+1, inbound bound 1) x responder {answer, reject, stall}: for each, every interleaving of manager loops, protocol event loops, per-connection tasks, per-request futures and user tasks with at most 2 (quick) / 3 (thorough) deviations from the FIFO schedule is executed to quiescence on the real code, with virtual time stepped past the request timeout. Ledger: every issued request id gets at most one terminal event, exactly one unless cancelled, responses byte-equal what the responder supplied for that request, each request reaches the responder at most once, inbound concurrency bound respected, no panic.",
+   note="SimNet: real Litep2p, TransportManager, TransportService, ProtocolSet, yamux, multistream-select and substreams; the per-connection task mirrors transport/tcp/connection.rs; Noise/TCP replaced by an in-memory pipe. Poll-granularity interleavings; randomness (HashMap keys, select! order, key generation) is made deterministic per execution (fresh thread + interposed getrandom + runtime rng seed). Defect found and repaired (pending_dials overwrite).",
+   design="§4 C13"),
  "C01": dict(level="fault_enumeration", engine="E3",
    technique="exhaustive fault enumeration on the real Noise handshake (both roles as driver tasks over the scripted carrier): every byte offset x mask, every truncation offset, cross-session substitutions, a snow-based rogue peer with 34 forged payload variants, dialed-peer expectations, fragmentations with bounded Pending injection",
    text="Every byte offset (incl. length prefixes) of the three handshake messages is corrupted with 9 (quick) / 255 (thorough) masks, every truncation offset is cut, every message is substituted by the same-index or another message of a second recorded session, and a rogue peer holding a VALID Noise session presents 34 identity-payload variants (missing/forged/foreign-session/no-domain/short/long signatures, unknown or truncated keys, non-canonical key encodings, extra fields) in both roles; the dialed-peer expectation {None, actual, other} is exercised through the real TcpConnection::open_connection over loopback sockets; the honest stream is fragmented (1/2/3/7-byte reads, a split at every offset, partial writes, small windows, <=2 injected Pendings). Oracle: Ok(P) only when P is the hash of the identity key the other side proved, the side that consumed altered bytes errs, never both Ok after any alteration, outcome independent of fragmentation.",
@@ -84,6 +89,8 @@ manifest = {
   "engines": [
     {"name": "E3", "path": "harness/src/props", "serves_properties": [k for k,v in CHECKS.items() if v["engine"]=="E3"],
      "kind_free_text": "exhaustive enumeration of a stated finite input / fault grid on a deterministic execution shape, differential or reference-model oracle per case"},
+    {"name": "E2", "path": "harness/src/mc/e2.rs", "serves_properties": [k for k,v in CHECKS.items() if v["engine"]=="E2"],
+     "kind_free_text": "stateless deviation-bounded schedule exploration (CHESS-style iterative context bounding) over a deterministic single-threaded driver that owns every task of several real Litep2p nodes connected by SimNet (harness/src/env/simnet.rs); every execution runs to quiescence; violations are re-validated by replaying their schedule"},
     {"name": "E1", "path": "harness/src/mc/e1.rs", "serves_properties": [k for k,v in CHECKS.items() if v["engine"]=="E1"],
      "kind_free_text": "explicit-state breadth-first exploration of the real component; state = action history replayed on a fresh object; dedup on 128-bit hash of a canonical snapshot; parallel per level; determinism re-check on every rebuild"},
   ],
